@@ -54,12 +54,12 @@ Proof.
   pose proof (scan_conflicts_pos s (b_id b) E) as P. apply N.ltb_lt in P. rewrite P in H. discriminate.
 Qed.
 
-(* the commit part is nothing, the quality record, or the quality record followed by the finalized record *)
+(* the commit part is nothing, or ONE batch: the quality record, alone or together with the finalized record *)
 Lemma commit_shape c s id parent just comm :
   let cw := writes_of_steps (commit_steps c s id parent just comm) in
   cw = [] \/
   (exists q, cw = [[Put (KQuality id) (VNum q)]] /\ is_storepoint (c_L c) (num_of id) = true) \/
-  (exists q f, cw = [[Put (KQuality id) (VNum q)]; [Put KFinalized (VId f)]] /\ is_storepoint (c_L c) (num_of id) = true).
+  (exists q f, cw = [[Put (KQuality id) (VNum q); Put KFinalized (VId f)]] /\ is_storepoint (c_L c) (num_of id) = true).
 Proof.
   unfold commit_steps. destruct (is_storepoint (c_L c) (num_of id)); [|left; auto].
   destruct (quality_of c s parent (num_of id) just) as [q|]; [|left; auto].
@@ -73,7 +73,7 @@ Qed.
 Lemma commit_nonempty_at_storepoint c s id parent just comm :
   Inv c s -> wf_cfg c -> stored s parent = true -> num_of parent + 1 = num_of id ->
   is_storepoint (c_L c) (num_of id) = true ->
-  exists q r, writes_of_steps (commit_steps c s id parent just comm) = [Put (KQuality id) (VNum q)] :: r.
+  exists q t, writes_of_steps (commit_steps c s id parent just comm) = [Put (KQuality id) (VNum q) :: t].
 Proof.
   intros I Hc Hp Hn Hsp. unfold commit_steps. rewrite Hsp.
   assert (exists q, quality_of c s parent (num_of id) just = Some q) as (q & Eq).
@@ -142,7 +142,19 @@ Proof.
     rewrite E in Hw; simpl in Hw.
   - destruct Hw.
   - destruct Hw as [<-|[]]. destruct Ho as [<-|[]]. reflexivity.
-  - destruct Hw as [<-|[<-|[]]]; destruct Ho as [<-|[]]; reflexivity.
+  - destruct Hw as [<-|[]]. destruct Ho as [<-|[<-|[]]]; reflexivity.
+Qed.
+
+Lemma commit_has_quality c s st id parent just comm :
+  Inv c s -> wf_cfg c -> stored s parent = true -> num_of parent + 1 = num_of id ->
+  is_storepoint (c_L c) (num_of id) = true ->
+  has (apply_writes st (writes_of_steps (commit_steps c s id parent just comm))) (KQuality id) = true.
+Proof.
+  intros I Hc Hp Hn Hsp.
+  destruct (commit_nonempty_at_storepoint c s id parent just comm I Hc Hp Hn Hsp) as (q & t & Er).
+  pose proof (commit_nd c s id parent just comm (Put (KQuality id) (VNum q) :: t)) as Hnd. rewrite Er in *.
+  cbn [apply_writes fold_left]. eapply has_put_in with (v := VNum q); [left; reflexivity|].
+  apply nd_no_del; auto. apply Hnd. left. reflexivity.
 Qed.
 
 Lemma pre_writes_nd s b ab w : In w (pre_writes s b ab) -> nd_batch w.
@@ -250,12 +262,7 @@ Proof.
       assert (Hs3 : stored s3 id = true).
       { unfold stored, get_summary in *. rewrite commit_frame in Hs; auto; discriminate. }
       destruct (s3_stored s b ab id Hs3) as [->|Hold].
-      * destruct (commit_nonempty_at_storepoint c s3 (b_id b) (b_parent b) (b_just b) (b_comm b) I3 Hc) as (q & r & Er); auto.
-        { apply s3_stored_mono; auto. }
-        rewrite Er. rewrite apply_writes_cons.
-        apply has_mono_writes; auto.
-        { intros w Hw. eapply commit_nd. rewrite Er. right. exact Hw. }
-        eapply has_put_in with (v := VNum q); [left; reflexivity|intros o [<-|[]]; discriminate].
+      * apply commit_has_quality; auto. apply s3_stored_mono; auto.
       * apply has_mono_writes; auto. { intros w Hw. eapply commit_nd; eauto. }
         apply s3_mono; auto.
     + (* Hinv *)
